@@ -75,7 +75,7 @@ impl Property for C11 {
     }
 
     fn required_classes(_tier: Tier) -> Vec<&'static str> {
-        vec!["separate-packs:1", "separate-packs:2", "separate-packs:3", "kind:Deleted", "kind:Directory", "kind:ForeignContainer", "kind:ForeignBarePack", "some-available-some-not", "all-unavailable", "main-pack-unavailable"]
+        vec!["damaged-present-pack-detected", "separate-packs:1", "separate-packs:2", "separate-packs:3", "kind:Deleted", "kind:Directory", "kind:ForeignContainer", "kind:ForeignBarePack", "some-available-some-not", "all-unavailable", "main-pack-unavailable"]
     }
 
     fn case_timeout_s(_tier: Tier) -> u64 {
@@ -99,7 +99,7 @@ impl Property for C11 {
         let fspec = ContainerSpec {
             packaging: Packaging::TwoFiles,
             comp: Comp::None,
-            contents: vec![ContentSpec { len: 33, ent: Entropy::Text, seed: 7, hint: Hint::No, source: Source::Mem, dup_of: None }],
+            contents: vec![ContentSpec { len: 33, ent: Entropy::Text, seed: 7, hint: Hint::No, source: Source::Mem, dup_of: None, flip: None }],
             extra_packs: vec![],
             dedup: false,
             dir: DirSpec::addresses_only(),
@@ -219,6 +219,39 @@ impl Property for C11 {
             if read_avail > 0 && read_missing > 0 {
                 nontrivial_scenarios += 1;
                 info.class("some-available-some-not");
+            }
+            // "the container check covers the packs that are present": damage one byte inside the
+            // checked range of the LAST available separate pack (so that unavailable ones precede
+            // it in the manifest) and the check must not answer success any more
+            drop(c);
+            if let Some((p, _)) = separate.iter().zip(sc.iter()).rev().find(|(_, u)| u.is_none()) {
+                let loc = String::from_utf8(p.location.clone()).unwrap();
+                let path = d.join(&loc);
+                let mut bytes = std::fs::read(&path).unwrap();
+                if let Ok(fd2) = indep::decode_file(&bytes) {
+                    if let Some(pi) = fd2.find_uuid(&p.uuid) {
+                        let pk = &fd2.packs[pi];
+                        // a byte in the middle of the checked range
+                        let pos = (pk.start + pk.header.check_pos / 2) as usize;
+                        bytes[pos] ^= 0x40;
+                        std::fs::write(&path, &bytes).unwrap();
+                        let c2 = match jbk::reader::Container::new(d.join("a.jbk")) {
+                            Ok(c) => c,
+                            Err(e) => fail!("container-unreadable", "scenario {si} {sc:?} + damaged available pack {}: Container::new fails: {e}", p.pack_id),
+                        };
+                        match c2.check() {
+                            Ok(true) => fail!(
+                                "check-misses-damaged-present-pack",
+                                "scenario {si} {sc:?}: byte {pos} of the present pack {} ({loc}) was altered and Container::check still answers Ok(true)",
+                                p.pack_id
+                            ),
+                            _ => {
+                                info.class("damaged-present-pack-detected");
+                            }
+                        }
+                        evals += 1;
+                    }
+                }
             }
             if sc.iter().all(|u| u.is_some()) && case.packaging != Packaging::OneFile {
                 info.class("all-unavailable");
